@@ -17,8 +17,8 @@ EXPLANATION = (
     "capture nothing of type State/Random/RefCell and reach no random-number or state accessor; the parallel "
     "evaluator visits every individual exactly like the sequential one (same element-preserving iteration rule as "
     "C06.R2); par_experiment builds a fresh state per run seeded with Random::new(<the run number from the iteration "
-    "item>); (R5) child generators: RandomIter::next draws the seed from the parent (next_u64) and builds the child "
-    "with the parent's constructor; with_rng seeds RNG::seed_from_u64(seed) and its constructor closure captures "
+    "item>), and no Random is inserted after the user's setup hook ran; (R5) child generators (K6): RandomIter::next "
+    "returns Some((parent.constructor)(seed)) with seed exactly one next_u64() drawn from the parent; with_rng seeds RNG::seed_from_u64(seed) and its constructor closure captures "
     "nothing; Random::new(seed) is with_rng::<ChaCha12Rng>(seed); (R6) components are immutable: every method of the "
     "component/condition/operator traits takes &self and no implementing type (transitively through crate-local "
     "fields) holds Cell/RefCell/Mutex/RwLock/Atomic/Once state; Configuration clones structurally. NOT decided: "
